@@ -454,6 +454,15 @@ def run_check(plugin, pid, seed, tier, args, scratch, t_start):
         if hasattr(plugin, 'regen'):
             gen_info = plugin.regen(ctx) or {}
             log('[%s] G regenerated: %s' % (pid, json.dumps(gen_info)[:300]))
+        # hidden-state census of the anchored files (every property): Generated/Statics<Cxx>.lean, pinned by RomeaProofs/Hidden/<Cxx>.lean
+        try:
+            import hidden_state
+            gen_info.update(hidden_state.regen(ctx, pid))
+            pin = 'RomeaProofs.Hidden.%s' % pid
+            if os.path.exists(os.path.join(LEAN, 'RomeaProofs', 'Hidden', pid + '.lean')) and pin not in plugin.PROOF_MODULES:
+                plugin.PROOF_MODULES = list(plugin.PROOF_MODULES) + [pin]
+        except Exception as ex:      # the census is an extra obligation: a failure of the tool itself is recorded, not hidden
+            ctx['notes'].append('hidden-state census failed: %r' % (ex,))
         # ---- A
         A = stage_A(plugin, tier, scratch)
         # the driver binary is used after the lock is released: keep a private copy
